@@ -487,6 +487,8 @@ Section Inv.
     pose proof (Hwf _ _ Hj) as (_ & _ & HuE & HuLt). pose proof (Htok _ _ Hj) as Htu.
     assert (HepE : t_pc u = PCall -> t_ep u < E).
     { intros Hp. unfold done in Hu. rewrite Hp in Hu. apply Nat.leb_gt in Hu. auto. }
+    assert (Hn : 0 < n).
+    { assert (j < length (thrs s)) by (apply nth_error_Some; congruence). lia. }
     destruct ph; simpl in Hgl; destruct Hgl as (Hfin & Hfout & Hb & Hx).
     - (* F: somebody has not yet incremented *)
       assert (HgE : g < E).
@@ -534,7 +536,9 @@ Section Inv.
       try (destruct (e <? E) eqn:HE; [apply Nat.ltb_lt in HE|discriminate]);
       inversion Hstep; subst s'; clear Hstep; simpl;
       try (match goal with |- sum meas_t (upd i ?x l) < _ =>
-             pose proof (sum_upd meas_t l i _ x Hi) as Hs; unfold meas_t in Hs at 2 3; simpl in Hs end).
+             pose proof (sum_upd meas_t l i _ x Hi) as Hs;
+             remember (sum meas_t (upd i x l)) as S1; remember (sum meas_t l) as S0;
+             unfold meas_t, setpc, pass_out, finish in Hs; simpl in Hs end).
     - lia.
     - destruct fin; simpl in Hs; lia.
     - destruct (b + 1 =? maxb)%Z; simpl in Hs; lia.
@@ -543,7 +547,9 @@ Section Inv.
       { rewrite nth_error_map, Hi. reflexivity. }
       pose proof (sum_upd meas_t _ i _ (pass_out (mkthr PFillOut e a q)) Hm) as Hs.
       pose proof (sum_map_le meas_t rel_out l meas_rel_out) as Hle.
-      unfold meas_t in Hs at 2 3; simpl in Hs. lia.
+      remember (sum meas_t (upd i (pass_out (mkthr PFillOut e a q)) (map rel_out l))) as S1.
+      remember (sum meas_t (map rel_out l)) as S2. remember (sum meas_t l) as S0.
+      unfold meas_t, pass_out in Hs; simpl in Hs. lia.
     - destruct fout; simpl in Hs; lia.
     - assert (e < E) by (apply HeLt; congruence).
       destruct (b - 1 =? 0)%Z; simpl in Hs; lia.
@@ -553,7 +559,9 @@ Section Inv.
       { rewrite nth_error_map, Hi. reflexivity. }
       pose proof (sum_upd meas_t _ i _ (finish (mkthr PFillIn e a q)) Hm) as Hs.
       pose proof (sum_map_le meas_t rel_in l meas_rel_in) as Hle.
-      unfold meas_t in Hs at 2 3; simpl in Hs. lia.
+      remember (sum meas_t (upd i (finish (mkthr PFillIn e a q)) (map rel_in l))) as S1.
+      remember (sum meas_t (map rel_in l)) as S2. remember (sum meas_t l) as S0.
+      unfold meas_t, finish in Hs; simpl in Hs. lia.
   Qed.
 
   (* number of picks of a schedule that actually moved a thread *)
